@@ -171,7 +171,10 @@ Definition write_now (o : options) (st : dstate) (d : deferred) : M dstate :=
 Fixpoint finalize_writes (o : options) (st : dstate) (ds : list deferred) : M dstate :=
   match ds with
   | [] => mret st
-  | d :: r => let! st' := write_now o st d in finalize_writes o st' r
+  | d :: r =>
+      (* the directory may have gone with the last file a later section removed from it *)
+      let! _ := ensure_parent_directories (d_dest d) in
+      let! st' := write_now o st d in finalize_writes o st' r
   end.
 
 Fixpoint finalize_removals (ws : list deferred) (rs : list (list N)) : M unit :=
